@@ -198,6 +198,18 @@ def run(tier):
     evaluations = 0
     distinct = set()
     table = acceptance(rep)
+    # ---- G-OPTVAL (universal, MIR of the macro crate): boolean options are read through their value, never through a
+    # presence predicate — the structural reason why `opt = false` equals omitting `opt` for every input
+    from ..grules import load_gen, load_controls, optval_findings
+    ctl, _n = optval_findings(load_controls())
+    ctl_names = set(k.split()[0].split("::")[-1] for _r, k, _m, _w in ctl)
+    rep.require({"ctl_opt_presence", "ctl_opt_absence"} <= ctl_names, "positive controls of G-OPTVAL were not flagged: %s" % sorted(ctl_names))
+    rep.require("ctl_opt_value_ok" not in ctl_names, "negative control of G-OPTVAL was flagged")
+    facts, _wall = load_gen()
+    found, nreads = optval_findings(facts)
+    rep.count("boolean_option_reads", nreads)
+    for rule, key, msg, wh in found:
+        rep.add(rule, key, msg, where=wh)
     configs = [("plain", (), ()), ("unimock_test", ("unimock",), ("test",))] if tier == "quick" else \
         [("plain", (), ()), ("test", (), ("test",)), ("unimock", ("unimock",), ()), ("unimock_test", ("unimock",), ("test",))]
     for cfgname, feats, cfgs in configs:
@@ -241,7 +253,7 @@ def run(tier):
     rep.coverage.update({
         "evaluations": evaluations + rep.counters.get("acceptance_cases", 0),
         "distinct_nontrivial": len(distinct),
-        "rule": "metamorphic pairs of attribute argument lists claimed equivalent by the property, applied to one representative fn, async fn, module and trait: bare option vs `= true`; `= false` vs omitted; every permutation of every option subset of size 2..%d vs its canonical order; entrait_export(args) vs entrait(args, export) and with explicit export values; with the cargo feature entrait(args) vs entrait(args, unimock). The token streams of the two sibling modules in `-Zunpretty=expanded` output must be equal. Acceptance: every option x {fn, mod, trait, impl} against the option table parsed from the doc comment in src/lib.rs (writer's and reader's tables must agree); rejections must be reported at the option." % maxsub,
+        "rule": "G-OPTVAL: in the MIR of entrait_macros no `is_some` / `is_none` (presence predicate) is applied to an `Option<SpanOpt<bool>>` / `Option<SpanOpt<FutureSend>>`; every read goes through the value with its default (positive and negative controls in witness/gctl). Metamorphic pairs of attribute argument lists claimed equivalent by the property, applied to one representative fn, async fn, module and trait: bare option vs `= true`; `= false` vs omitted; every permutation of every option subset of size 2..%d vs its canonical order; entrait_export(args) vs entrait(args, export) and with explicit export values; with the cargo feature entrait(args) vs entrait(args, unimock). The token streams of the two sibling modules in `-Zunpretty=expanded` output must be equal. Acceptance: every option x {fn, mod, trait, impl} against the option table parsed from the doc comment in src/lib.rs (writer's and reader's tables must agree); rejections must be reported at the option." % maxsub,
         "exhaustive": True,
         "explanation": "the cross-feature clause (feature-on entrait(args) == feature-off entrait(args, unimock)) cannot be observed as one expansion because ::entrait::__unimock does not exist without the feature; it is decided as the same-feature pair entrait(args) == entrait(args, unimock) under the feature plus C10's lattice",
         "doc_table": {k: sorted(v) for k, v in table.items()},
